@@ -1,11 +1,64 @@
 import EpdVerif.Drivers.Dsl
 import EpdVerif.Gen.Epd2in7
-/-! model of `src/epd2in7/mod.rs` (STUB: programs not yet transcribed) -/
+/-! model of `src/epd2in7/mod.rs` -/
 namespace EpdVerif.Drivers.Epd2in7
 open EpdVerif
 open EpdVerif.Gen.Epd2in7
 
-def prog (_f : Feat) (_d : DState) : Op → Option (List Act)
+def W : Act := .wait IS_BUSY_LOW
+
+def setLut : List Act :=
+  [W] ++
+  cmdData Command.LutForVcom LUT_VCOM_DC ++
+  cmdData Command.LutWhiteToWhite LUT_WW ++
+  cmdData Command.LutBlackToWhite LUT_BW ++
+  cmdData Command.LutWhiteToBlack LUT_WB ++
+  cmdData Command.LutBlackToBlack LUT_BB
+
+def init : List Act :=
+  [.reset 10000 2000] ++
+  cmdData Command.PowerSetting [0x03, 0x00, 0x2b, 0x2b, 0x09] ++
+  cmdData Command.BoosterSoftStart [0x07, 0x07, 0x17] ++
+  cmdData Command.PowerOptimization [0x60, 0xa5] ++
+  cmdData Command.PowerOptimization [0x89, 0xa5] ++
+  cmdData Command.PowerOptimization [0x90, 0x00] ++
+  cmdData Command.PowerOptimization [0x93, 0x2a] ++
+  cmdData Command.PowerOptimization [0xa0, 0xa5] ++
+  cmdData Command.PowerOptimization [0xa1, 0x00] ++
+  cmdData Command.PowerOptimization [0x73, 0x41] ++
+  cmdData Command.PartialDisplayRefresh [0x00] ++
+  [.cmd Command.PowerOn, .delayUs 5000, W] ++
+  cmdData Command.PanelSetting [0xaf] ++
+  cmdData Command.PllControl [0x3a] ++
+  cmdData Command.VcomAndDataIntervalSetting [0x57] ++
+  cmdData Command.VcmDcSetting [0x12] ++
+  setLut ++ [W]
+
+def updateFrame (d : DState) (b : Bytes) : List Act :=
+  [.cmd Command.DataStartTransmission1, .rep (byteValue d.bg) (WIDTH * HEIGHT / 8),
+   .cmd Command.DataStartTransmission2, .data b]
+
+/-- the 8-byte window header, one `data` call per byte -/
+def windowHeader (x y w h : Nat) : List Act :=
+  dataEach [shr8 x 8, u8 (x &&& 0xf8), shr8 y 8, u8 (y &&& 0xff),
+            shr8 w 8, u8 (w &&& 0xf8), shr8 h 8, u8 (h &&& 0xff)]
+
+def prog (_f : Feat) (d : DState) : Op → Option (List Act)
+  | .new => some init
+  | .wake => some init
+  | .sleep => some ([W] ++ cmdData Command.VcomAndDataIntervalSetting [0xf7] ++
+      [.cmd Command.PowerOff, W] ++ cmdData Command.DeepSleep [0xA5])
+  | .upd b => some (updateFrame d b)
+  | .part b x y w h => some ([.cmd Command.PartialDataStartTransmission1] ++
+      windowHeader x y w h ++ [W, .data b])
+  | .disp => some [.cmd Command.DisplayRefresh, W]
+  | .updisp b => some (updateFrame d b ++ [.cmd Command.DisplayRefresh])
+  | .clear => some [W,
+      .cmd Command.DataStartTransmission1, .rep (byteValue d.bg) (WIDTH * HEIGHT / 8),
+      .cmd Command.DataStartTransmission2, .rep (byteValue d.bg) (WIDTH * HEIGHT / 8)]
+  | .bg c => some [.upd (fun d => { d with bg := c })]
+  | .lut _ => some setLut
+  | .wait => some [W]
   | _ => none
 
 def panel (f : Feat) : Panel :=
